@@ -1771,6 +1771,62 @@ func (w *world) sweeps() {
 			w.out(c.line())
 		}
 	}
+	// DS digests over owner names that the presentation form has to escape (\DDD, \., \\)
+	w.out("ds new")
+	for i, b := range append([]byte{7, 0x7f, 0xc3, 0xa9}, trickyOctets...) {
+		ls := trickyOwner(r, b, i%6)
+		w.dsLineFor(pres(joinWireName(recaseLabels(r, ls))), 257, 3, 13, w.others[0].pub, vlib.Pick(r, []int{1, 2, 4}))
+	}
+	// names at the length ceiling: a signer / owner of 238, 239, 254 and 255 wire octets
+	long := func(total int) [][]byte {
+		mk := func(n int) []byte {
+			b := make([]byte, n)
+			for i := range b {
+				b[i] = labelAlphabet[r.Intn(52)]
+			}
+			return b
+		}
+		return [][]byte{mk(total - 194), mk(63), mk(63), mk(63)} // 1+L + 3*64 + root
+	}
+	w.out("sd new")
+	for _, total := range []int{238, 239, 254, 255} {
+		zl := long(total)
+		owner := joinWireName(zl)
+		rrs := unequalRRset(r, owner, 16)
+		w.sdLine(16, len(zl), owner, owner, rrs)
+	}
+	w.out("vfy new")
+	for _, total := range []int{238, 239, 255} {
+		zl := long(total)
+		if c, ok := w.signedCase(vlib.Pick(r, w.others), zl, zl, unequalRRset(r, joinWireName(zl), 16)); ok {
+			w.out(c.line())
+		}
+	}
+	// records exactly as an authoritative server sends them: owner already lower case, TTL equal to
+	// the RRSIG's original TTL, no wildcard - and capital letters in the names inside the RDATA
+	for _, typ := range []uint16{2, 5, 6, 12, 15, 17, 18, 33, 35, 39, 14, 21, 26, 36, 3, 47, 64} {
+		zl := [][]byte{lowerBytes(genLabel(r, true)), lowerBytes(genLabel(r, true))}
+		ol := append([][]byte{lowerBytes(genLabel(r, true))}, zl...)
+		owner := joinWireName(ol)
+		var rrs []wireRR
+		for t := 0; t < 30; t++ {
+			rrs = genRRset(r, owner, typ)
+			up := false
+			for i := range rrs {
+				rrs[i].ttl, rrs[i].class = 300, 1
+				up = up || bytes.ContainsAny(rrs[i].rdata, "ABCDEFGHIJKLMNOPQRSTUVWXYZ")
+			}
+			if up {
+				break
+			}
+		}
+		w.out("sd new")
+		w.sdLine(typ, len(ol), joinWireName(zl), owner, rrs)
+		if c, ok := w.signedCase(vlib.Pick(r, w.others), zl, ol, rrs); ok {
+			w.out("vfy new")
+			w.out(c.line())
+		}
+	}
 	// key texts wrapped with LF, bare CR and CRLF around the size ceiling (5456 characters of material)
 	w.out("ov new")
 	for _, nl := range []string{"\n", "\r", "\r\n"} {
